@@ -738,6 +738,25 @@ class Evaluator:
             try:
                 st = _State()
                 val = self.expr(m2.assigns[n2], st, m2, None, 0)
+                # a table completed by module-level statements after its definition: NAME.update({...}), NAME[k] = v
+                if isinstance(val, DictT):
+                    for stt in m2.tree.body:
+                        if isinstance(stt, ast.Expr) and isinstance(stt.value, ast.Call) and isinstance(stt.value.func, ast.Attribute) and stt.value.func.attr == 'update' \
+                                and isinstance(stt.value.func.value, ast.Name) and stt.value.func.value.id == n2 and len(stt.value.args) == 1 and not stt.value.keywords:
+                            more = self.expr(stt.value.args[0], _State(), m2, None, 0)
+                            if isinstance(more, DictT):
+                                items = list(val.items)
+                                for k, v in more.items:
+                                    items = [(k0, v0) for k0, v0 in items if k0 != k] + [(k, v)]
+                                val = DictT(tuple(items))
+                            else:
+                                val = Call(Attr(val, 'update'), (more,))   # not foldable: keep it visible
+                                break
+                        elif isinstance(stt, ast.Assign) and len(stt.targets) == 1 and isinstance(stt.targets[0], ast.Subscript) and isinstance(stt.targets[0].value, ast.Name) \
+                                and stt.targets[0].value.id == n2 and isinstance(val, DictT):
+                            k = self.expr(stt.targets[0].slice, _State(), m2, None, 0)
+                            v = self.expr(stt.value, _State(), m2, None, 0)
+                            val = DictT(tuple((k0, v0) for k0, v0 in val.items if k0 != k) + ((k, v),))
             finally:
                 self._const_busy.discard(key)
             if _is_mutable_container(val):
